@@ -52,7 +52,12 @@ func StringUtils_guessCharset(bytes []byte, hints map[gozxing.DecodeHintType]int
 			return eci.GetCharset(), nil
 		}
 
-		return ianaindex.IANA.Encoding(name)
+		charset, err := ianaindex.IANA.Encoding(name)
+		if err == nil && charset == nil {
+			// a registered IANA name for which x/text has no codec
+			err = fmt.Errorf("unsupported character set %q", name)
+		}
+		return charset, err
 	}
 
 	// First try UTF-16, assuming anything with its BOM is UTF-16
